@@ -7,7 +7,6 @@ LEVEL = "other"
 SW = "nexrad_model::data::sweep::Sweep"
 FR = SW + "::from_radials"
 MERGE = SW + "::merge"
-STABLE_SORT = "alloc::slice::<impl [T]>::sort_by_key"
 
 
 CFG = {"fn": None, "group": SW, "radials": "radials", "label": "elevation_number", "elem_label": "elevation_number",
@@ -172,6 +171,33 @@ def _from_radials(chk, prog, FR):
             chk.ob("R-LIN", FR, len(em) == 1 and fld(em[0], CFG["label"]) == ("vfld", N, "Some", "0"), "the final sweep carries the pending label", where, key="exit:label")
 
 
+STABLE_SORTS = ("alloc::slice::<impl [T]>::sort_by_key", "alloc::slice::<impl [T]>::sort_by", "alloc::slice::<impl [T]>::sort_by_cached_key")
+
+
+def _eq_verdict(conds, ea, eb):
+    """'eq' | 'ne' | None: what a path's conditions say about ea == eb (either operand order, == or !=)"""
+    eqs = {binop("Eq", ea, eb, "u8"), binop("Eq", eb, ea, "u8")}
+    nes = {binop("Ne", ea, eb, "u8"), binop("Ne", eb, ea, "u8")}
+    out = set()
+    for k in conds:
+        if len(k) == 2:
+            term, val = k
+        elif len(k) == 3 and k[1] == "bool" and k[2] in (((1, 1),), ((0, 0),)):
+            term, val = k[0], k[2] == ((1, 1),)
+        else:
+            continue
+        if term in eqs:
+            out.add("eq" if val else "ne")
+        elif term in nes:
+            out.add("ne" if val else "eq")
+    return out.pop() if len(out) == 1 else None
+
+
+def _concat(t):
+    """sequence of a first-then-second concatenation (extend/append chains over a fresh or moved-in vector)"""
+    return listalg.seq(t)
+
+
 def merge(chk, prog):
     ev = sym.Evaluator(prog)
     fn = prog.fn(MERGE)
@@ -180,29 +206,40 @@ def merge(chk, prog):
         return
     a, b = P("self"), P("other")
     ea, eb = fld(a, "elevation_number"), fld(b, "elevation_number")
-    cond = binop("Ne", ea, eb, "u8")
-    err_leaf = [x for c, x in loops.paths(got) if any(len(k) == 2 and k[0] == cond and k[1] is True for k in c)]
-    ok_leaf = [x for c, x in loops.paths(got) if any(len(k) == 2 and k[0] == cond and k[1] is False for k in c)]
-    chk.ob("R-ORDER", MERGE, len(err_leaf) == 1 and len(ok_leaf) == 1 and err_leaf[0][0] == "adt" and err_leaf[0][2] == "Err" and ok_leaf[0][0] == "adt" and ok_leaf[0][2] == "Ok",
+    leaves = [(_eq_verdict(c, ea, eb), x) for c, x in loops.paths(got)]
+    err_leaf = [x for v, x in leaves if v == "ne"]
+    ok_leaf = [x for v, x in leaves if v == "eq"]
+    und = [x for v, x in leaves if v is None]
+    chk.ob("R-ORDER", MERGE, not und and len(err_leaf) >= 1 and len(ok_leaf) == 1 and all(x[0] == "adt" and x[2] == "Err" for x in err_leaf)
+           and ok_leaf[0][0] == "adt" and ok_leaf[0][2] == "Ok",
            "Err exactly when the elevation numbers differ, Ok otherwise", fn.where(), key="error-iff-mismatch")
     if len(ok_leaf) != 1 or ok_leaf[0][0] != "adt" or ok_leaf[0][2] != "Ok":
         return
     res = ok_leaf[0][3][0][1]
     chk.ob("R-WIRE", MERGE, res[0] == "adt" and fld(res, "elevation_number") in (ea, eb), "merged sweep keeps the common elevation number", fn.where(), key="label")
     rad = fld(res, "radials") if res[0] == "adt" else ("?",)
-    okk = rad[0] == "mutated" and rad[1] == STABLE_SORT and rad[2] == 0
-    chk.ob("R-LIN", MERGE, okk, "radials are ordered by exactly one stable sort (slice::sort_by_key)" if okk else
-           "radials are not produced by one stable sort_by_key: %s" % show(rad)[:200], fn.where(), key="stable-sort")
+    okk = rad[0] == "mutated" and rad[1] in STABLE_SORTS and rad[2] == 0
+    chk.ob("R-LIN", MERGE, okk, "radials are ordered by exactly one stable sort (slice::sort_by_key / sort_by / sort_by_cached_key)" if okk else
+           "radials are not produced by one stable sort: %s" % show(rad)[:200], fn.where(), key="stable-sort")
     if not okk:
         return
     inner, clo = rad[3][0], rad[3][1]
-    s = listalg.seq(inner)
+    s2 = _concat(inner)
     want = [("atom", fld(a, "radials")), ("atom", fld(b, "radials"))]
-    s2 = None
-    if inner[0] == "mutated" and ("extend" in inner[1].lower()) and inner[2] == 0:
-        s2 = [("atom", inner[3][0]), ("atom", inner[3][1])]
     chk.ob("R-LIN", MERGE, s2 == want, "before sorting the radials are self's followed by other's (ties stay first-then-second)" if s2 == want else
            "concatenation order is %s, must be self then other" % (listalg.show(s2) if s2 else show(inner)[:200]), fn.where(), key="first-then-second")
+    if rad[1].endswith("::sort_by"):
+        # comparator form: must be Ord::cmp(key(x), key(y)) for the same key on both sides, in argument order
+        X, Y = P("x"), P("y")
+        try:
+            cmpv = ev.apply_closure(clo, [X, Y], 0)
+        except sym.Undecided as e:
+            cmpv = ("undecided", str(e))
+        okc = cmpv[0] == "call" and cmpv[1].endswith("::cmp") and "Ord" in cmpv[1] and len(cmpv[2]) == 2 and \
+            cmpv[2][0] == fld(X, "azimuth_number") and cmpv[2][1] == fld(Y, "azimuth_number")
+        chk.ob("VN", MERGE, okc, "comparator is azimuth_number(x).cmp(azimuth_number(y))" if okc else
+               "comparator is %s, expected Ord::cmp(x.azimuth_number, y.azimuth_number)" % show(cmpv)[:200], fn.where(), key="sort key is the radial's azimuth number")
+        return
     try:
         key = ev.apply_closure(clo, [sym.ELEM], 0)
     except sym.Undecided as e:
